@@ -4,6 +4,9 @@ package writer
 
 // Contracts for the govc verifier (see /verif/DESIGN.md). Comment-only: declares nothing.
 
+// log-only helpers of core/util (base64 / summaries of messages for log lines): no effect on the heap
+//@ purepkg github.com/zilliztech/milvus-cdc/core/util.Base64 github.com/zilliztech/milvus-cdc/core/util.MsgPackInfoForLog
+
 // ---- C08: the decision from (operation time, create time, drop time) -------------------
 // specSkip / specApply are written from the property statement:
 //   skip  : the object is known dropped at or after t (and not re-created at or before t),
@@ -113,6 +116,8 @@ package writer
 //@   ensures [dropped-partition-skips] c.downstream == "milvus" && old(dbOK(c, db, ts)) && collection != "" && old(collState(c, db, collection, ts)) == InfoStateCreated && partition != "" && old(partState(c, db, collection, partition, ts)) == InfoStateDropped ==> result0 && err == nil && probeCalls == old(probeCalls) && tablesSame(c)
 //@   ensures [all-recorded-created-applies] c.downstream == "milvus" && old(dbOK(c, db, ts)) && (collection == "" || old(collState(c, db, collection, ts)) == InfoStateCreated) && (collection == "" || partition == "" || old(partState(c, db, collection, partition, ts)) == InfoStateCreated) ==> !result0 && err == nil && probeCalls == old(probeCalls) && tablesSame(c)
 //@   ensures [apply-never-on-recorded-drop] !result0 && err == nil && c.downstream == "milvus" ==> !old(dbDropped(c, db, ts)) && (collection == "" || old(collState(c, db, collection, ts)) != InfoStateDropped)
+//@   ensures [no-skip-means-no-drop-evidence] !result0 && c.downstream == "milvus" ==> !old(dbDropEv(c, db, ts)) && ((db == "" || db == "default") ==> !old(collDropEv(c, db, collection, ts)))
+//@   ensures [absence-of-drop-evidence-is-stable] (!old(dbDropEv(c, db, ts)) ==> !dbDropEv(c, db, ts)) && (!old(collDropEv(c, db, collection, ts)) ==> !collDropEv(c, db, collection, ts)) && (!old(partDropEv(c, db, collection, partition, ts)) ==> !partDropEv(c, db, collection, partition, ts))
 //@   ensures [drop-keys-never-change] forall k string :: !hasSuffix(k, "_c") ==> umHas(c.dbInfos, k) == old(umHas(c.dbInfos, k)) && umGet(c.dbInfos, k) == old(umGet(c.dbInfos, k)) && umHas(c.collectionInfos, k) == old(umHas(c.collectionInfos, k)) && umGet(c.collectionInfos, k) == old(umGet(c.collectionInfos, k)) && umHas(c.partitionInfos, k) == old(umHas(c.partitionInfos, k)) && umGet(c.partitionInfos, k) == old(umGet(c.partitionInfos, k))
 //@   ensures opCalls == old(opCalls)
 //@   modifies um(c.dbInfos), um(c.collectionInfos), um(c.partitionInfos), probeCalls, lastDescribeDatabase, lastDescribeCollection, lastDescribePartition, api.DescribeDatabaseParam.*, api.DescribeCollectionParam.*, api.DescribePartitionParam.*
